@@ -46,7 +46,7 @@ def setup_worker(ctx):
 
 def _shape(rng, maxnd, allow0=True):
     nd = int(rng.integers(0 if allow0 else 1, maxnd + 1))
-    return [int(rng.integers(1, 4)) for _ in range(nd)]
+    return [1 if rng.random() < 0.2 else int(rng.integers(1, 4)) for _ in range(nd)]
 
 
 def _const(rng, shape, allow_sparse=False):
@@ -262,7 +262,41 @@ def tries_forced_reshape(node, nodes):
 
 def gen_case(rng, idx, tier):
     front = 'ro' if rng.random() < 0.6 else 'dro'
-    maxnd = 3 if tier == 'quick' else 4
+    if rng.random() < 0.03:
+        # template: batch matrix product whose batch dimensions broadcast in both directions
+        a, b, m_, k_, n_ = (int(rng.integers(2, 4)) for _ in range(5))
+        kind = 'dec' if rng.random() < 0.6 else 'rand'
+        left = rng.random() < 0.5
+        xs = [a, 1, m_, k_] if rng.random() < 0.5 else [1, a, m_, k_]
+        bs = [1 if xs[0] > 1 else b, b if xs[1] == 1 else 1]
+        if left:
+            cshape = bs + [k_, n_]
+            res = [max(xs[0], bs[0]), max(xs[1], bs[1]), m_, n_]
+        else:
+            cshape = bs + [n_, m_]
+            res = [max(xs[0], bs[0]), max(xs[1], bs[1]), n_, k_]
+        if rng.random() < 0.3:
+            cshape = cshape[1:] if cshape[0] == 1 else cshape
+        decl = {'dvars': [xs] if kind == 'dec' else [[1]], 'rvars': [xs] if kind == 'rand' else [[1]],
+                'ldrs': []}
+        nodes = [{'op': 'dvar', 'p': 0, 'shape': decl['dvars'][0], 'kind': 'dec'},
+                 {'op': 'rvar', 'p': 0, 'shape': decl['rvars'][0], 'kind': 'rand'}]
+        src = 0 if kind == 'dec' else 1
+        c = _const(rng, cshape)
+        if c['k'] == 'bool':
+            c = {'k': 'f8', 'shape': cshape,
+                 'data': np.round(rng.uniform(-2, 2, cshape), 3).tolist()}
+        node = {'op': 'matmulc' if left else 'rmatmulc', 'args': [src], 'p': c, 'kind': kind}
+        shp = np.asarray(np_apply(node, [np.zeros(n['shape']) for n in nodes])).shape
+        node['shape'] = list(shp)
+        nodes.append(node)
+        if rng.random() < 0.5:
+            nodes.append({'op': 'sum', 'args': [2], 'p': int(rng.integers(-4, 4)), 'kind': kind,
+                          'shape': list(np.zeros(shp).sum(axis=0).shape)})
+            nodes[-1]['shape'] = list(np.zeros(shp).sum(axis=nodes[-1]['p']).shape)
+        return {'front': front, 'decl': decl, 'nodes': nodes, 'nleaf': 2,
+                'vseed': int(rng.integers(1 << 30))}
+    maxnd = 4 if (tier != 'quick' or rng.random() < 0.25) else 3
     maxops = 5 if tier == 'quick' else 8
     nodes = []
     leaves = []
@@ -353,11 +387,19 @@ def gen_case(rng, idx, tier):
                 inner = s0[-1] if op == 'matmulc' else (s0[-2] if len(s0) >= 2 else s0[0])
                 cs = rstr(rng, [[inner], [inner, int(rng.integers(1, 4))]]) \
                     if op == 'matmulc' else rstr(rng, [[inner], [int(rng.integers(1, 4)), inner]])
-                if rng.random() < 0.25:
+                if rng.random() < (0.7 if len(s0) >= 4 else 0.25):
                     cs = [int(rng.integers(1, 3))] + (cs if len(cs) == 2 else [1] + cs
                                                       if op == 'rmatmulc' else cs + [1])
                     if rng.random() < 0.5 and len(s0) >= 3:
                         cs[0] = s0[-3]
+                    if rng.random() < 0.5 and len(s0) >= 3:
+                        # batch dimensions that broadcast in both directions
+                        lead = [int(rng.integers(1, 4)) if d == 1 else (1 if rng.random() < 0.5
+                                                                        else d)
+                                for d in s0[:-2]]
+                        cs = lead + cs[-2:]
+                        if rng.random() < 0.3:
+                            cs = [int(rng.integers(2, 4))] + cs
             else:
                 # broadcast compatible shape, either direction
                 mode = rng.random()
@@ -428,7 +470,7 @@ def gen_case(rng, idx, tier):
             res = np_apply(node, shapes)
             res = np.asarray(res, dtype=float)
             node['shape'] = list(res.shape)
-            if res.size > 64:
+            if res.size > 200:
                 continue
             nodes.append(node)
             shapes.append(np.zeros(res.shape))
